@@ -588,17 +588,16 @@ Section Frames.
   Proof.
     intros s. unfold Container.setitem. destruct k as [name|name l|name a b st| |]; try (simpl; auto; fail).
     - destruct (negb (mem name (index s))); [simpl; auto | apply setattr_ki].
-    - destruct (locate (span s) l) as [p|e]; [|simpl; auto].
-      destruct (assoc name (vars s)) as [v|].
-      + destruct (Container.assign_item pycast arrcast itemseq_exn v p value) as [v' e]. simpl. auto.
-      + destruct (hidden_lookup name s); try (simpl; auto; fail).
-        destruct (Nat.ltb p (length (registry s))); simpl; auto.
-    - destruct (resolve_slice (span s) a b st) as [[[sl el] stp]|e]; [|simpl; auto].
-      destruct (assoc name (vars s)) as [v|].
-      + destruct (vshape v) as [|m [|m' r]]; try (simpl; auto; fail).
-        destruct (slice_positions m sl el stp) as [ps|]; [|simpl; auto].
-        destruct (Container.assign_inplace pycast arrcast v ps value) as [v' e]. simpl. auto.
-      + destruct (hidden_lookup name s); simpl; auto.
+    - destruct (negb (mem name (index s))); [simpl; auto|].
+      destruct (locate (span s) l) as [p|e]; [|simpl; auto].
+      destruct (assoc name (vars s)) as [v|]; [|simpl; auto].
+      destruct (Container.assign_item pycast arrcast itemseq_exn v p value) as [v' e]. simpl. auto.
+    - destruct (negb (mem name (index s))); [simpl; auto|].
+      destruct (resolve_slice (span s) a b st) as [[[sl el] stp]|e]; [|simpl; auto].
+      destruct (assoc name (vars s)) as [v|]; [|simpl; auto].
+      destruct (vshape v) as [|m [|m' r]]; try (simpl; auto; fail).
+      destruct (slice_positions m sl el stp) as [ps|]; [|simpl; auto].
+      destruct (Container.assign_inplace pycast arrcast v ps value) as [v' e]. simpl. auto.
   Qed.
 
   Lemma replace_values_ki kvs : keeps_index (replace_values kvs).
@@ -634,12 +633,13 @@ Section Frames.
   Theorem step_index o s :
     incl (index (fst (step o s))) (index s ++ match o with AddVariable n _ _ => [n] | _ => [] end).
   Proof.
-    destruct o as [name v dt|name v hint|k v|kvs|name v]; simpl.
+    destruct o as [name v dt|name v hint|k v|kvs|name v|q]; simpl.
     - destruct (add_variable_index name v dt s) as [E|E]; rewrite E; [apply incl_appl|]; apply incl_refl.
     - rewrite (proj1 (setattr_ki name v hint s)), app_nil_r. apply incl_refl.
     - rewrite (proj1 (setitem_ki k v s)), app_nil_r. apply incl_refl.
     - rewrite (proj1 (replace_values_ki kvs s)), app_nil_r. apply incl_refl.
     - rewrite (proj1 (add_attribute_ki name v s)), app_nil_r. apply incl_refl.
+    - rewrite read_frame, app_nil_r. apply incl_refl.
   Qed.
 
   Theorem run_index ops : forall s x,
@@ -675,7 +675,7 @@ Section Frames.
 
   Lemma resolve_op_idem am o : WFam am -> resolve_op am (resolve_op am o) = resolve_op am o.
   Proof.
-    intros W. destruct o as [name v dt|name v hint|k v|kvs|name v]; simpl; try reflexivity.
+    intros W. destruct o as [name v dt|name v hint|k v|kvs|name v|q]; simpl; try reflexivity.
     - rewrite (resolve_idempotent _ _ W). reflexivity.
     - rewrite (resolve_key_idem _ _ W). reflexivity.
     - f_equal. rewrite map_map. apply map_ext. intros [k v]. simpl. rewrite (resolve_idempotent _ _ W). reflexivity.
@@ -683,29 +683,35 @@ Section Frames.
 
   (* an operation made through an alias (or an alias of an alias ...) has exactly the effect - new state AND outcome - of the
      same operation made through the underlying name, on the same aliased object *)
+  Lemma alias_read_frame am q s : fst (alias_read am q s) = s.
+  Proof. destruct q; reflexivity. Qed.
+
+  Lemma alias_step_unfold am o s : alias_step am o s = step (resolve_op am o) s.
+  Proof. destruct o as [name v dt|name v hint|k v|kvs|name v|q]; try reflexivity. destruct q; reflexivity. Qed.
+
   Theorem alias_op_eq_root_op am o s : WFam am -> alias_step am o s = alias_step am (resolve_op am o) s.
-  Proof. intros W. unfold gen_alias_step. rewrite (resolve_op_idem _ _ W). reflexivity. Qed.
+  Proof. intros W. rewrite !alias_step_unfold. rewrite (resolve_op_idem _ _ W). reflexivity. Qed.
 
   (* two operations that differ only in WHICH alias of a variable they use are indistinguishable *)
   Theorem alias_ops_same_target am o1 o2 s :
     resolve_op am o1 = resolve_op am o2 -> alias_step am o1 s = alias_step am o2 s.
-  Proof. intros E. unfold gen_alias_step. rewrite E. reflexivity. Qed.
+  Proof. intros E. rewrite !alias_step_unfold. rewrite E. reflexivity. Qed.
 
   (* refinement to the canonical twin (a model WITHOUT aliases operated through the underlying names only), over
      arbitrary histories: same final state, same outcome and state after every operation *)
   Theorem alias_run_twin am ops : forall s, alias_run am ops s = run (map (resolve_op am) ops) s.
-  Proof. induction ops as [|o ops IH]; intros s; simpl; [reflexivity|]. rewrite IH. reflexivity. Qed.
+  Proof. induction ops as [|o ops IH]; intros s; simpl; [reflexivity|]. rewrite IH, alias_step_unfold. reflexivity. Qed.
 
   Fixpoint alias_trace (am : aobj) (ops : list op) (s : state) : list res :=
     match ops with [] => [] | o :: r => let x := alias_step am o s in x :: alias_trace am r (fst x) end.
 
   Theorem alias_trace_twin am ops : forall s, alias_trace am ops s = run_trace (map (resolve_op am) ops) s.
-  Proof. induction ops as [|o ops IH]; intros s; simpl; [reflexivity|]. rewrite IH. reflexivity. Qed.
+  Proof. induction ops as [|o ops IH]; intros s; simpl; [reflexivity|]. rewrite IH, alias_step_unfold. reflexivity. Qed.
 
   (* the twin's operations are canonical: they mention no alias at all *)
   Definition op_names (o : op) : list string :=
     match o with
-    | AddVariable _ _ _ | AddAttribute _ _ => []           (* not wrapped: the name is taken literally *)
+    | AddVariable _ _ _ | AddAttribute _ _ | Query _ => []  (* not wrapped: the name is taken literally *)
     | SetAttr n _ _ => [n]
     | SetItem (KName n) _ | SetItem (KLabel n _) _ | SetItem (KSlice n _ _ _) _ => [n]
     | SetItem _ _ => []
@@ -715,7 +721,7 @@ Section Frames.
   Theorem twin_ops_mention_no_alias am o x :
     WFam am -> In x (op_names (resolve_op am o)) -> ~ In x (akeys (amap am)).
   Proof.
-    intros W H. destruct o as [name v dt|name v hint|k v|kvs|name v]; simpl in H; try contradiction.
+    intros W H. destruct o as [name v dt|name v hint|k v|kvs|name v|q]; simpl in H; try contradiction.
     - destruct H as [<-|[]]. apply resolve_not_alias. exact W.
     - destruct k; simpl in H; try contradiction; destruct H as [<-|[]]; apply resolve_not_alias; exact W.
     - rewrite map_map in H. apply in_map_iff in H as [[k v] [<- _]]. simpl. apply resolve_not_alias. exact W.
@@ -728,7 +734,7 @@ Section Frames.
   (* ... and so does "one cell per period" (resolving a name does not touch the operand) *)
   Lemma wf_resolve_op am o : wf_key_op o -> wf_key_op (resolve_op am o).
   Proof.
-    destruct o as [name v dt|name v hint|k v|kvs|name v]; simpl; try (intros H; exact H).
+    destruct o as [name v dt|name v hint|k v|kvs|name v|q]; simpl; try (intros H; exact H).
     intros H. apply Forall_forall. intros kv Hin. apply in_map_iff in Hin as [[k0 v0] [<- Hin]]. simpl.
     rewrite Forall_forall in H. exact (H _ Hin).
   Qed.
@@ -1124,7 +1130,7 @@ Definition canon_op (ALIASES : amap_t) (o : op) : op :=
   | SetAttr n v h => SetAttr (chain_end ALIASES n) v h
   | SetItem k v => SetItem (canon_key ALIASES k) v
   | ReplaceValues kvs => ReplaceValues (map (fun kv => (chain_end ALIASES (fst kv), snd kv)) kvs)
-  | AddVariable _ _ _ | AddAttribute _ _ => o
+  | AddVariable _ _ _ | AddAttribute _ _ | Query _ => o
   end.
 
 Definition canon_kwargs (ALIASES : amap_t) (kw : list (string * operand)) : list (string * operand) :=
@@ -1161,7 +1167,7 @@ Section Canonical.
 
   Lemma resolve_op_canon o : resolve_op am o = canon_op ALIASES o.
   Proof.
-    destruct o as [name v dt|name v hint|k v|kvs|name v]; simpl; try reflexivity.
+    destruct o as [name v dt|name v hint|k v|kvs|name v|q]; simpl; try reflexivity.
     - rewrite resolve_chain_end. reflexivity.
     - destruct k; simpl; try reflexivity; rewrite resolve_chain_end; reflexivity.
     - f_equal. apply map_ext. intros [k v]. simpl. rewrite resolve_chain_end. reflexivity.
@@ -1203,3 +1209,70 @@ Section Canonical.
   Theorem alias_getattr_canonical_twin n s : alias_getattr_var am n s = getattr_var (chain_end ALIASES n) s.
   Proof. unfold alias_getattr_var. rewrite resolve_chain_end. reflexivity. Qed.
 End Canonical.
+
+(* ================================================================== the read-only hooks of the mixin *)
+(* FRAME: calling _ipython_key_completions_, dir(), `in` or nbytes on an aliased object changes NOTHING - in particular the
+   container's own `index` list is not the list handed out (the answer is a concatenation, hence a new list) *)
+Theorem alias_hooks_change_nothing am q s : fst (alias_read am q s) = s.
+Proof. destruct q; reflexivity. Qed.
+
+(* what the completion hook offers: the variables, then the aliases the object holds ... *)
+Theorem alias_completions am s :
+  snd (alias_read am QCompletions s) = Ret (VNames (index s ++ akeys (amap am))) /\
+  snd (alias_read am QCompletions s) =
+    match snd (read QCompletions s) with Ret (VNames l) => Ret (VNames (l ++ akeys (amap am))) | r => r end.
+Proof. split; reflexivity. Qed.
+
+(* ... which, for an accepted acyclic declaration, are exactly the declared aliases that are no self-maps, in dict order *)
+Theorem alias_completions_declared ALIASES PREFERRED am s :
+  NoDup (akeys ALIASES) -> acyclic ALIASES -> alias_construct ALIASES PREFERRED = Ret am ->
+  snd (alias_read am QCompletions s) = Ret (VNames (index s ++ akeys (drop_self ALIASES))).
+Proof.
+  intros ND AC CON. simpl.
+  destruct (shorten_acyclic_unbounded ALIASES ND AC) as [a [S [K _]]].
+  unfold alias_construct in CON. rewrite S in CON.
+  destruct (pref_check a PREFERRED []) as [[]|e]; [|discriminate]. inversion CON; subst. simpl. rewrite K. reflexivity.
+Qed.
+
+(* every alias offered by the hook whose chain ends at a variable can be used as a key, and reads that variable *)
+Theorem alias_completion_usable am s n :
+  In n (akeys (amap am)) -> mem (resolve am n) (index s) = true ->
+  alias_getitem am (KName n) s = getitem (KName (resolve am n)) s /\ alias_getitem am (KName n) s <> Raise KeyError \/
+  assoc (resolve am n) (vars s) = None.
+Proof.
+  intros _ M. destruct (assoc (resolve am n) (vars s)) as [v|] eqn:A; [left|right; reflexivity].
+  split; [reflexivity|]. unfold alias_getitem. simpl. rewrite M, A. discriminate.
+Qed.
+
+Theorem alias_dir am s :
+  snd (alias_read am QDir s) =
+    match snd (read QDir s) with Ret (VNames l) => Ret (VNames (l ++ akeys (amap am))) | r => r end.
+Proof. simpl. rewrite app_assoc. reflexivity. Qed.
+
+(* nbytes of an aliased object = nbytes of the plain object, provided no alias is named like a variable *)
+Theorem alias_nbytes am s :
+  (forall x, In x (index s) -> ~ In x (akeys (amap am))) ->
+  snd (alias_read am QNbytes s) = snd (read QNbytes s).
+Proof.
+  intros H. simpl. unfold nbytes_of.
+  assert (G : forall l, incl l (index s) ->
+    fold_right (fun x acc => match acc with
+                             | Raise e => Raise e
+                             | Ret a => match assoc (resolve am x) (vars s) with
+                                        | Some v => if mem (resolve am x) (index s) then Ret (prod_shape (vshape v) * itemsize (vdtype v) + a) else Raise KeyError
+                                        | None => Raise KeyError
+                                        end
+                             end) (Ret 0) l =
+    fold_right (fun x acc => match acc with
+                             | Raise e => Raise e
+                             | Ret a => match assoc x (vars s) with
+                                        | Some v => if mem x (index s) then Ret (prod_shape (vshape v) * itemsize (vdtype v) + a) else Raise KeyError
+                                        | None => Raise KeyError
+                                        end
+                             end) (Ret 0) l).
+  { induction l as [|x l IH]; intros Hl; [reflexivity|]. simpl.
+    rewrite IH by (intros y Hy; apply Hl; right; exact Hy).
+    unfold resolve. rewrite (aget_nonkey _ _ (H x (Hl x (or_introl eq_refl)))). reflexivity. }
+  rewrite (G (index s) (incl_refl _)). reflexivity.
+Qed.
+
